@@ -7,14 +7,23 @@ UTILS = 'utils.py'
 BAD = {'.', '..'}
 
 
-def rejects_dot_components(fn: FuncInfo) -> bool:
-    """Does the function's filter / guard exclude the components '.' and '..'?"""
+def rejects_dot_components(fn: FuncInfo, repo=None) -> bool:
+    """Does the function's filter / guard exclude the components '.' and '..'?  (literals, or a module-level tuple/set constant)"""
     lits = set()
     for n in walk_with_lambdas(fn.node):
         if isinstance(n, ast.Compare) and isinstance(n.ops[0], (ast.NotIn, ast.NotEq, ast.In, ast.Eq)):
             for c in ast.walk(n):
                 if isinstance(c, ast.Constant) and c.value in BAD:
                     lits.add(c.value)
+                if isinstance(c, ast.Name) and repo is not None:
+                    d = const_value(repo, fn.module, c.id)
+                    if d is None:
+                        imp = fn.module.imports.get(c.id)
+                        if imp and ':' in imp:
+                            m = next((m_ for m_ in repo.modules.values() if m_.dotted == imp.split(':')[0]), None)
+                            d = const_value(repo, m, imp.split(':')[1]) if m is not None else None
+                    if d is not None:
+                        lits |= {x.value for x in ast.walk(d) if isinstance(x, ast.Constant) and x.value in BAD}
     return lits == BAD
 
 
@@ -22,13 +31,13 @@ def run(eng: Engine, ck: Check):
     repo = eng.repo
     srp = eng.func(UTILS, 'split_remote_path')
     ck.visited(srp)
-    split_clean = rejects_dot_components(srp)
+    split_clean = rejects_dot_components(srp, repo)
     comp = [n for n in walk_local(srp.node) if isinstance(n, ast.ListComp)]
     drops_empty = bool(comp) and any(isinstance(i, ast.Name) or 'part' in unparse(i) for g in comp[0].generators for i in g.ifs)
     ck.ob('R-C09-TAINT', srp, srp.node, 'split_remote_path drops empty components (repeated / leading / trailing separators)', drops_empty, '', construct='split drops empty')
-    pat = const_value(repo, repo.module('constants.py'), 'PATH_SEPERATOR_PATTERN')
-    ck.ob('R-C09-TAINT', 'constants.py:PATH_SEPERATOR_PATTERN', 'src/aioslsk/constants.py', 'remote paths are split on both \\ and /', pat is not None and
-          const(pat.args[0]) == '[\\\\/]+', unparse(pat), construct='separator pattern')
+    sep_pat = const_value(repo, repo.module('constants.py'), 'PATH_SEPERATOR_PATTERN')
+    ck.ob('R-C09-TAINT', 'constants.py:PATH_SEPERATOR_PATTERN', 'src/aioslsk/constants.py', 'remote paths are split on both \\ and /', sep_pat is not None and
+          const(sep_pat.args[0]) == '[\\\\/]+', unparse(sep_pat), construct='separator pattern')
 
     base = eng.cls('NamingStrategy', NAMING)
     strategies = [c for c in repo.subclasses(base) if 'apply' in c.methods]
@@ -42,7 +51,7 @@ def run(eng: Engine, ck: Check):
         for n in walk_local(ap.node):
             if isinstance(n, ast.Assign) and isinstance(n.targets[0], ast.Name) and mentions_name(n.value, rp, *tainted):
                 tainted[n.targets[0].id] = n.value
-        local_clean = rejects_dot_components(ap)
+        local_clean = rejects_dot_components(ap, repo)
         for r in [n for n in walk_local(ap.node) if isinstance(n, ast.Return)]:
             if not isinstance(r.value, ast.Tuple) or len(r.value.elts) != 2:
                 ck.ob('R-C09-TAINT', ap, r, f'{ci.name}.apply returns (directory, filename)', False, unparse(r.value), construct=f'{ci.name} return shape')
@@ -107,34 +116,104 @@ def run(eng: Engine, ck: Check):
           'CURRENT pair, the result becomes the current pair', ok, detail + ': the duplicate check must look at the directory the file will really go to',
           construct='chain threads current pair')
     rets = [n for n in walk_local(ch.node) if isinstance(n, ast.Return)]
-    init = {unparse(n.targets[0]): unparse(n.value) for n in ch.node.body if isinstance(n, ast.Assign)}
-    ok = len(rets) == 1 and unparse(rets[0].value) in ('(path, filename)',) and init.get('path') == ch.params[2]
-    ck.ob('R-C09-CHAIN', ch, ch.node, 'the chain starts at the download directory and returns the final pair', ok, f'{init}', construct='chain start and result')
+    init: dict[str, str] = {}
+    for n in ch.node.body:
+        if isinstance(n, ast.Assign):
+            for t in n.targets:
+                if isinstance(t, ast.Tuple) and isinstance(n.value, ast.Tuple) and len(t.elts) == len(n.value.elts):
+                    init.update({unparse(a_): unparse(b_) for a_, b_ in zip(t.elts, n.value.elts)})
+                else:
+                    init[unparse(t)] = unparse(n.value)
+    carried_ = carried if len(loops) == 1 and 'carried' in dir() else []
+    ok = len(rets) == 1 and isinstance(rets[0].value, ast.Tuple) and [unparse(x) for x in rets[0].value.elts] == carried_ and len(carried_) == 2 and \
+        init.get(carried_[0]) == ch.params[2] and init.get(carried_[1]) in ("''", '""')
+    ck.ob('R-C09-CHAIN', ch, ch.node, 'the chain starts at (download directory, empty name) and returns the final pair', ok, f'{init}', construct='chain start and result')
     cdp = eng.func(SHARES, 'SharesManager.calculate_download_path')
     x = calls_in(cdp.node)
-    ok = any(call_name(y) == 'chain_strategies' and [unparse(a) for a in y.args] == ['self.naming_strategies', cdp.params[1], 'download_dir'] for y in x) and \
-        unparse(single_assignments(cdp).get('download_dir')) == 'self.get_download_directory()'
+    ok = any(call_name(y) == 'chain_strategies' and len(y.args) == 3 and unparse(y.args[0]) == 'self.naming_strategies' and unparse(y.args[1]) == cdp.params[1]
+             and phas(expand_aliases(cdp, y.args[2]), 'self.get_download_directory()') for y in x)
     ck.ob('R-C09-INSIDE', cdp, cdp.node, 'calculate_download_path starts the chain at the configured download directory', ok, '', construct='download dir is chain root')
     gdd = eng.func(SHARES, 'SharesManager.get_download_directory')
-    ok = 'os.path.abspath(download_dir)' in unparse(gdd.node) and '_settings.shares.download' in unparse(gdd.node)
+    grets = [expand_aliases(gdd, n.value) for n in walk_local(gdd.node) if isinstance(n, ast.Return) and n.value is not None]
+    ok = len(grets) == 1 and phas(grets[0], 'os.path.abspath($x)') and (chain_str(pfirst(grets[0], 'os.path.abspath($x)')[0].args[0]) or '').endswith('_settings.shares.download')
     ck.ob('R-C09-INSIDE', gdd, gdd.node, 'the download directory is the absolute path of settings.shares.download', ok, '', construct='download dir')
     pdp = eng.func(TM, 'TransferManager._prepare_download_path')
     ck.visited(pdp)
-    src = unparse(pdp.node)
-    ok = 'transfer.local_path = os.path.join(download_path, file_path)' in src and 'calculate_download_path(transfer.remote_path)' in src and \
-        'os.path.split(transfer.local_path)' in src and 'create_directory(path)' in src
-    ck.ob('R-C09-INSIDE', pdp, pdp.node, 'the local path is join(chosen directory, chosen name) and only its parent directory is created', ok, '', construct='prepare download path')
+    tp = [p_ for p_ in pdp.params if p_ != 'self'][0]
+    facts = {}
+    chosen = pfind(pdp.node, f'$d, $f = $_.calculate_download_path({tp}.remote_path)')
+    facts['the pair comes from calculate_download_path(transfer.remote_path)'] = len(chosen) == 1
+    if chosen:
+        bd = chosen[0][1]
+        stores = [(st_, v_) for f_, st_, v_ in eng.stores_to_attr('local_path', [pdp])]
+        facts['local_path = join(chosen directory, chosen name) and nothing else'] = len(stores) == 1 and stores[0][1] is not None and \
+            pat.match(expand_aliases(pdp, stores[0][1]), pat.compile_pattern(f"os.path.join({bd['d']}, {bd['f']})")[0]) is not None
+    mk = calls_on(pdp.node, 'create_directory')
+    heads = {bd_['h'] for _, bd_ in pfind(pdp.node, '$h, $_ = os.path.split($p)') if chain_str(expand_aliases(pdp, ast.parse(bd_['p'], mode='eval').body)) == f'{tp}.local_path'}
+    facts['only the parent directory of local_path is created'] = len(mk) == 1 and bool(mk[0].args) and (
+        unparse(mk[0].args[0]) in heads or phas(expand_aliases(pdp, mk[0].args[0]), f'os.path.dirname({tp}.local_path)') or
+        phas(expand_aliases(pdp, mk[0].args[0]), f'os.path.split({tp}.local_path)[0]'))
+    bad_ = [k_ for k_, v_ in facts.items() if not v_]
+    ck.ob('R-C09-INSIDE', pdp, pdp.node, 'the local path is join(chosen directory, chosen name) and only its parent directory is created', not bad_,
+          f'not established: {bad_}', construct='prepare download path')
 
     # ---- R-C09-NUMBER
     nd = eng.func(NAMING, 'NumberDuplicateStrategy.apply')
-    src = unparse(nd.node)
-    ok = 'min(possible_indices - set(indices))' in src and 'set(range(min(indices), max(indices) + 2))' in src and 'os.listdir(local_dir)' in src and \
-        're.escape(filename) + self.PATTERN + re.escape(extension)' in src
-    ck.ob('R-C09-NUMBER', nd, nd.node, 'the duplicate number is the smallest index NOT present in the directory listing (set difference, then min)', ok, '', construct='free index')
-    ok = "f'{filename} ({next_index}){extension}'" in src
-    ck.ob('R-C09-NUMBER', nd, nd.node, 'the new name is "<stem> (<index>)<ext>", the form the listing pattern recognises', ok, '', construct='numbered name form')
+    dirp, namep = nd.params[2], nd.params[3]
+    facts = {}
+    sp = pfind(nd.node, f'$stem, $ext = os.path.splitext({namep})')
+    facts['stem and extension come from splitext(local_filename)'] = len(sp) == 1
+    if sp:
+        stem, ext = sp[0][1]['stem'], sp[0][1]['ext']
+        sa_n = single_assignments(nd)
+        lst = [x for x in calls_in(nd.node) if pat.match(x, pat.compile_pattern(f'os.listdir({dirp})')[0]) is not None]
+        facts['the directory listing of local_dir is consulted'] = len(lst) == 1
+        ms = [x for x in calls_in(nd.node) if call_name(x) in ('match', 'fullmatch') and len(x.args) == 2]
+        facts['every listed name is matched against escape(stem) + PATTERN + escape(ext)'] = len(ms) == 1 and pat.match(
+            expand_aliases(nd, ms[0].args[0]), pat.compile_pattern(f're.escape({stem}) + self.PATTERN + re.escape({ext})')[0]) is not None
+        idx_src = pfind(nd.node, 'int($m.group(1))')
+        facts['the captured number of every match is collected'] = len(idx_src) == 1
+        # the list the numbers go to
+        idx_name = None
+        if idx_src:
+            n0 = idx_src[0][0]
+            par = parent(n0)
+            if isinstance(par, ast.Call) and call_name(par) == 'append' and isinstance(par.func.value, ast.Name):
+                idx_name = par.func.value.id
+            else:
+                st0 = enclosing_stmt(n0)
+                if isinstance(st0, ast.Assign) and isinstance(st0.targets[0], ast.Name):
+                    idx_name = st0.targets[0].id
+        free = []
+        if idx_name:
+            for n_, bd_ in pfind(nd.node, f'min($cand - set({idx_name}))'):
+                cand = expand_aliases(nd, ast.parse(bd_['cand'], mode='eval').body)
+                if pat.match(cand, pat.compile_pattern(f'set(range(min({idx_name}), num(max({idx_name}) + 2)))')[0]) is not None:
+                    free.append(n_)
+        facts['next index = min(set(range(min, max + 2)) - used): the smallest unused index'] = len(free) == 1
+        nxt = None
+        if free:
+            stf = enclosing_stmt(free[0])
+            nxt = unparse(stf.targets[0]) if isinstance(stf, ast.Assign) else None
+            gs_ = [(unparse(e), pol) for e, pol, _ in eng.guards_at(nd, stf)]
+            facts['that formula is used exactly when numbered files exist, otherwise the index is 1'] = gs_ == [(idx_name, True)] and any(
+                isinstance(n_, ast.Assign) and unparse(n_.targets[0]) == nxt and const(n_.value) == 1 for n_ in walk_local(nd.node))
+        js = [n_ for n_ in walk_local(nd.node) if isinstance(n_, ast.JoinedStr)]
+        shape = None
+        for j in js:
+            shape = [(unparse(v_.value) if isinstance(v_, ast.FormattedValue) else v_.value) for v_ in j.values]
+            if shape == [stem, ' (', nxt, ')', ext]:
+                break
+        facts['the new name is "<stem> (<index>)<ext>"'] = shape == [stem, ' (', nxt, ')', ext]
+        rets_ = [n_ for n_ in walk_local(nd.node) if isinstance(n_, ast.Return)]
+        facts['the directory is returned unchanged with the new name'] = len(rets_) == 1 and isinstance(rets_[0].value, ast.Tuple) and \
+            unparse(rets_[0].value.elts[0]) == dirp and isinstance(expand_aliases(nd, rets_[0].value.elts[1]), ast.JoinedStr)
+    bad_ = [k_ for k_, v_ in facts.items() if not v_]
+    ck.ob('R-C09-NUMBER', nd, nd.node, 'the duplicate number is the smallest index NOT present in the directory listing and the new name is '
+          '"<stem> (<index>)<ext>", the form the listing pattern recognises', not bad_, f'not established: {bad_}', construct='free index')
     dn = eng.func(NAMING, 'DuplicateNamingStrategy.should_be_applied')
-    ok = 'os.path.exists(os.path.join(local_dir, local_filename))' in unparse(dn.node)
+    drets = [expand_aliases(dn, n.value) for n in walk_local(dn.node) if isinstance(n, ast.Return) and n.value is not None]
+    ok = len(drets) == 1 and pat.match(drets[0], pat.compile_pattern(f'os.path.exists(os.path.join({dn.params[1]}, {dn.params[2]}))')[0]) is not None
     ck.ob('R-C09-NUMBER', dn, dn.node, 'a duplicate strategy applies iff join(dir, name) exists', ok, '', construct='duplicate test')
     sm_init = eng.func(SHARES, 'SharesManager.__init__')
     ns = [v for f, st, v in eng.stores_to_attr('naming_strategies', [sm_init])]
